@@ -36,7 +36,9 @@ def check_c03(cfg, nph, cph, rec, pinned_buffer_skip=False):
             if si >= len(S): V.append(("consumed-by-unrecorded-step:" + pol, f"{key}[{j}] seq_in {si}")); continue
             st = S[si]
             # never by a step that started before it arrived
-            if st < recv or (cc["skip"] and st == recv):
+            # (blocking connections: the phase-determined step waits for the message, so start == arrival is the normal case,
+            #  also with skip; the strict rule for skipped connections concerns the non-blocking selection)
+            if st < recv or (cc["skip"] and not cc["blocking"] and st == recv):
                 V.append(("consumed-before-arrival:" + pol, f"{key}[{j}] recv {recv} consumed by step {si} starting {st}"))
             if cc["blocking"]:
                 # phase-determined step: sender tick so is scheduled at so*Pm+phi_m; it belongs to receiver step N with
@@ -95,7 +97,7 @@ def check_c04(cfg, nph, cph, rec):
         c = R[n]; P = nd["period"]; phi = nph[n]
         ins = {k: cc for k, cc in cfg["conns"].items() if cc["in"] == n}
         only_b = nd["advance"] and all(cc["blocking"] for cc in ins.values())
-        drift = 0; end_prev = 0; prev_start = None
+        drift = 0; end_prev = 0; prev_start = None; prev_held = False
         for k in range(len(c["seq"])):
             s = k * P + phi
             tsmax = 0
@@ -115,8 +117,12 @@ def check_c04(cfg, nph, cph, rec):
             if c["end"][k] != c["start"][k] + d or c["delay"][k] != d:
                 V.append(("end-law", f"{n}[{k}] end {c['end'][k]} start {c['start'][k]} delay sample {d} recorded {c['delay'][k]}")); break
             if nd["sched"] == "FREQ":
-                if prev_start is not None and tsmax <= max(end_prev, s + drift) and c["start"][k] - prev_start < P:
+                # consecutive starts stay >= P apart under overruns; a step held back by a late blocking input is not on
+                # the schedule line, so the claim is about steps (this one and the previous) that were not held back
+                held = tsmax > max(end_prev, s + drift)
+                if prev_start is not None and not held and not prev_held and not only_b and c["start"][k] - prev_start < P:
                     V.append(("frequency-spacing", f"{n}[{k}] starts {c['start'][k] - prev_start} after previous, period {P}"))
+                prev_held = held
                 drift = drift + max(0, (end_prev - s) - drift)
             else:
                 drift = 0
